@@ -336,4 +336,4 @@ def check(case: dict) -> dict:
     return {'nontrivial': rejected and selective and inside, 'classes': classes}
 
 
-ENGINES = [Engine('sequences', cases, check, quick=200, thorough=2500, batch=100)]
+ENGINES = [Engine('sequences', cases, check, quick=200, thorough=8000, batch=200, thorough_s=1200.0)]
